@@ -742,3 +742,61 @@ def sched_policy_case(ctx, case, monitors):
             ctx.violation(dict(sig, q="reward", rule="makespan_of_returned_actions"), f"policy reports reward {float(rew[b])}, the schedule of its returned actions has makespan {mk}", dict(row=b, inst=insts[b], actions=acts))
             return
         ctx.nontrivial_case(dict(i=insts[b], a=acts))
+
+
+def smtwtp_multistart_case(ctx, case, monitors):
+    """SMTWTP episodes whose first move is handed out by the environment's own start rule (env.select_start_nodes, what
+    multi-start decoding / POMO / active search use without consulting the mask), the rest mask-confined: every row must be a
+    permutation of the jobs 1..n, the dummy node 0 never scheduled, the reward minus the weighted tardiness of that order."""
+    from rl4co.utils.ops import batchify
+    from vlib.episode import choose, row_done
+
+    cfg, B, seed, k = case["cfg"], case["B"], case["s"], case["k"]
+    env = envzoo.make_other(cfg)
+    torch.manual_seed(seed)
+    td_in = env.generator(batch_size=[B])
+    td0 = env.reset(td_in.clone())
+    n = td0["action_mask"].shape[-1] - 1  # nodes of the reset state minus the dummy start node
+    k = int(env.get_num_starts(td0)) if k == "default" else int(k)
+    sig = sig_of(cfg, mode="multistart")
+    try:
+        a0 = env.select_start_nodes(td0.clone(), num_starts=k)
+    except Exception as e:
+        ctx.evaluation()
+        ctx.violation(dict(sig, q="select_start_nodes_raises", exc=type(e).__name__), f"select_start_nodes(k={k}) raised {type(e).__name__}: {str(e)[:160]}", None)
+        return
+    td = batchify(td0.clone(), k)
+    R = B * k
+    ctx.count("episodes")
+    ctx.count("c07_smtwtp_multistart_runs")
+    gen = torch.Generator().manual_seed(seed)
+    names = [["uniform", "first_true", "last_true"][i % 3] for i in range(R)]
+    seqs = [[int(a0[r])] for r in range(R)]
+    td.set("action", a0.clone())
+    td = env.step(td)["next"]
+    t = 1
+    while not bool(row_done(td).all()) and t < n + 3:
+        mask = td["action_mask"].reshape(R, -1).bool()
+        live = ~row_done(td).reshape(R)
+        if bool((~mask.any(-1) & live).any()):
+            ctx.evaluation()
+            ctx.violation(dict(sig, q="dead_end"), f"SMTWTP multi-start: an unfinished row has no feasible action at step {t}", dict(B=B, k=k))
+            return
+        a = choose(names, torch.where(mask.any(-1, keepdim=True), mask, torch.ones_like(mask)), td, gen)
+        for r in range(R):
+            if bool(live[r]):
+                seqs[r].append(int(a[r]))
+        td.set("action", a)
+        td = env.step(td)["next"]
+        t += 1
+    for r in range(R):
+        ctx.evaluation()
+        ctx.count("c07_schedules_checked")
+        ctx.count("c07_smtwtp_multistart_rows")
+        if 0 in seqs[r]:
+            ctx.violation(dict(sig, rule="dummy_scheduled"), f"row {r} (start {r // B} of instance {r % B}): the dummy start node 0 is scheduled: {seqs[r]}", dict(row=r, seq=seqs[r], k=k))
+            return
+        if sorted(seqs[r]) != list(range(1, n + 1)):
+            ctx.violation(dict(sig, rule="not_a_permutation"), f"row {r}: episode {seqs[r]} is not a permutation of the jobs 1..{n}", dict(row=r, seq=seqs[r], k=k))
+            return
+        ctx.nontrivial_case(dict(s=seqs[r], i=td_in["job_due_time"][r % B].tolist()))
